@@ -548,6 +548,7 @@ func checkC03(w *World, r *Report) {
 	r.Explanation = "Decides the clause 'independent of Go's map iteration order' for every template and context: (R03.1) every iteration over a Go map — range over a map value, range or index loops over reflect.Value.MapKeys(), MapRange — in a function reachable from a render root is either performed over keys that were sorted first, or its body has no order-dependent effect (no output written, nothing appended that is not sorted before its next use, no accumulation of a non-numeric result, no unconditional 'first/last entry wins' assignment or return); (R03.2) calls of time.Now, math/rand, the %p verb and goroutine/select statements on render paths lie in the frozen list of constructs that are time- or randomness-dependent by definition. (R03.3) comparators that order reflect map keys never tie distinct keys (no constant result before the keys themselves were compared, no lossy conversion). Not decided: printing of pointer-bearing user values through %v; cross-process equality. (R03.4) comparators handed to sort.Slice/SliceStable over plain values apply one criterion to every pair (every condition and result relates the same projection of both elements, or tests one element only after that property was found equal for both); R03.1 also covers Engine.Load, the Loader methods and the loader constructors."
 	r.Explanation += " Rules added in later rounds: A return inside a map-ordered loop that depends on the visited entry must lie under an equality test on the key itself (error results excepted). A running best in a map-ordered loop does not recognise 'nothing yet' by a constant an entry can equal."
 	r.Explanation += " Round 10: (R03.6) output does not depend on pool recycling of containers templates hold."
+	r.Explanation += " Round 11: (R03.1) stores under names translated through another table."
 	r.RuleText = "obligation = one map-ordered loop (or one nondeterminism source); non-trivial = loops whose body had to be classified (all)"
 	r.Trusted = []string{"sort.* / slices.Sort* produce a key-determined order", "call-graph over-approximation for 'reachable from render roots'"}
 
